@@ -482,6 +482,24 @@ class OpsMixin(object):
             return
         self.err(node, "attribute store on %r" % (base,))
 
+    def dict_lookup(self, base, idx, node=None):
+        """a key that is not a literal looked up among stored keys: Python compares by equality -> ('hit', value) |
+        ('miss', None) | ('maybe', [(condition key == stored key, value), ...]) - conditions already decided on the
+        current path are applied"""
+        maybe = []
+        for kk, vv in list(base.items.values()):
+            r = self.equals(idx, kk, node)
+            if isinstance(r, Cond):
+                r = self.assume(r)
+            if r is True:
+                return "hit", vv
+            if r is False:
+                continue
+            maybe.append((r, vv))
+        if not maybe:
+            return "miss", None
+        return "maybe", maybe
+
     # -------------------------------------------------------------- getitem
     def getitem(self, base, idx, node=None):
         if isinstance(base, ListV):
@@ -510,7 +528,13 @@ class OpsMixin(object):
             from .symeval_ext import concrete_key
             if concrete_key(idx) and all(concrete_key(kk) for kk, _ in base.items.values()):
                 raise RaiseSignal(ExcV(ExtV("builtins.KeyError"), [idx]), node)
-            self.err(node, "symbolic key into concrete dict")
+            kind, res = self.dict_lookup(base, idx, node)
+            if kind == "hit":
+                return res
+            if kind == "miss":
+                raise RaiseSignal(ExcV(ExtV("builtins.KeyError"), [idx]), node)
+            self.err(node, "item of a dictionary under a key whose equality with the stored keys %s is not decided on this path"
+                     % ([c for c, _ in res],))
         if isinstance(base, SeqV):
             return self.seq_elem(base, self.num(idx, node))
         if isinstance(base, Opaque):
@@ -666,6 +690,8 @@ class OpsMixin(object):
         if isinstance(v, NTV):
             return ListV(v.values, "tuple")
         if isinstance(v, DictV):
+            if getattr(v, "symkeys", False):
+                self.err(node, "iteration over a dictionary whose keys may coincide (undecided key equality)")
             return ListV([k for k, _ in v.items.values()], "list")
         if isinstance(v, Opaque):
             return SeqV("opaque", path=v.path, elem_class=self.elem_classes.get(v.path))
